@@ -27,6 +27,10 @@ def gen_case(rng, i, tier):
             ops[1:1] = o
             lens.insert(0, n)
             rates.insert(0, rate)
+    if rng.random() < 0.35:
+        # a link whose granule positions do not start at zero (cut out of a longer stream / an encoder that keeps counting across links): the last
+        # link, or the one some page belongs to (the harness leaves links alone whose audio is a single page: their length would change)
+        ops.append("pagedamage 23 %d 0 %d" % (rng.choice([-1, -1, 3, rng.randrange(0, 40)]), rng.choice([1, 64, 777, 5000, 10 ** 6, 2 ** 33])))
     total = sum(lens)
     dur_ms = int(sum(1000.0 * n / r for n, r in zip(lens, rates)))
     if rng.random() < 0.15:
